@@ -41,4 +41,47 @@ Proof.
   repeat split; try reflexivity.
   intros [ | | | ]; reflexivity.
 Qed.
+
+(* FieldVector<complex<K>,n>: any component with a NaN / infinite part; all components with both parts finite *)
+Lemma c17_fold_or_pair (f : fl * fl -> bool) (v : list (fl * fl)) (acc : bool) :
+  fold_left (fun out x => out || f x) v acc = acc || existsb f v.
+Proof.
+  revert acc; induction v as [|x v IH]; intro acc; simpl.
+  - now rewrite orb_false_r.
+  - rewrite IH. now rewrite orb_assoc.
+Qed.
+Lemma c17_fold_and_pair (f : fl * fl -> bool) (v : list (fl * fl)) (acc : bool) :
+  fold_left (fun out x => out && f x) v acc = acc && forallb f v.
+Proof.
+  revert acc; induction v as [|x v IH]; intro acc; simpl.
+  - now rewrite andb_true_r.
+  - rewrite IH. now rewrite andb_assoc.
+Qed.
+
+Definition c17_flat (v : list (fl * fl)) : list fl := flat_map (fun x => [fst x; snd x]) v.
+
+Lemma c17_existsb_flat (f : fl -> bool) (v : list (fl * fl)) :
+  existsb (fun x => f (fst x) || f (snd x)) v = existsb f (c17_flat v).
+Proof. induction v as [|[x y] v IH]; simpl; [reflexivity|]. now rewrite IH, orb_assoc. Qed.
+Lemma c17_forallb_flat (f : fl -> bool) (v : list (fl * fl)) :
+  forallb (fun x => f (fst x) && f (snd x)) v = forallb f (c17_flat v).
+Proof. induction v as [|[x y] v IH]; simpl; [reflexivity|]. now rewrite IH, andb_assoc. Qed.
+
+Lemma C17_classifiers_complex_vector_lemma (v : list (fl * fl)) (a b : fl) :
+  c17_vcisnan prec emax v = existsb (@is_nan prec emax) (c17_flat v) /\
+  c17_vcisinf prec emax v = existsb (@c17_isinf prec emax) (c17_flat v) /\
+  c17_vcisfinite prec emax v = forallb (@is_finite prec emax) (c17_flat v) /\
+  (* isUnordered: exactly when an argument is NaN; the FieldVector<K,1> form is the scalar one *)
+  c17_isunordered prec emax a b = (is_nan a || is_nan b) /\
+  c17_visunordered1 prec emax a b = (is_nan a || is_nan b) /\
+  (* isFinite is NOT the negation of isInf (NaN is neither), also for complex *)
+  (c17_cisfinite prec emax B754_nan a = false /\ c17_cisinf prec emax B754_nan (B754_zero false) = false).
+Proof.
+  unfold c17_vcisnan, c17_vcisinf, c17_vcisfinite, c17_flat.
+  rewrite !c17_fold_or_pair, c17_fold_and_pair. simpl.
+  split; [exact (c17_existsb_flat (@is_nan prec emax) v)|].
+  split; [exact (c17_existsb_flat (@c17_isinf prec emax) v)|].
+  split; [exact (c17_forallb_flat (@is_finite prec emax) v)|].
+  repeat split; reflexivity.
+Qed.
 End Classifiers.
